@@ -132,7 +132,17 @@ TEMPLATES += [
                             "owners": {"e": {"k": "Array", "items": {"k": "Ref", "name": "Owner"}, "kw": {}}, "required": False, "source": None}}}},
      "order": ["Owner", "Meter"], "root": {"k": "Ref", "name": "Meter"}},
 ]
-TEMPLATE_VALUES = [{"count": 3}, {"count": 3, "owner": {"id": 1}, "owners": [{"id": 2}]}, {"owner": {"id": 1}}, {"c2": 1.5, "count": 0},
+TEMPLATES += [
+    {"classes": {"Plan": {"k": "Obj", "name": "Plan", "base": None, "doc": None, "kw": {}, "props": {
+        "class_": {"e": {"k": "String", "kw": {"default": "basic"}}, "required": False, "source": "class"},
+        "dollar_id": {"e": {"k": "Integer", "kw": {"default": 0}}, "required": True, "source": "$id"},
+        "lvl": {"e": {"k": "Element", "kw": {"enum": [1, 2, 3]}}, "required": True, "source": None},
+        "bits": {"e": {"k": "Array", "items": {"k": "Element", "kw": {"enum": [0, 1]}}, "kw": {}}, "required": False, "source": None},
+        "one": {"e": {"k": "Element", "kw": {"const": 1}}, "required": False, "source": None}}}},
+     "order": ["Plan"], "root": {"k": "Ref", "name": "Plan"}},
+]
+TEMPLATE_VALUES = [{"lvl": 2}, {"lvl": 2.0, "bits": [0, 1.0], "one": 1.0}, {"lvl": 1, "class": "pro", "$id": 4},
+                   {"count": 3}, {"count": 3, "owner": {"id": 1}, "owners": [{"id": 2}]}, {"owner": {"id": 1}}, {"c2": 1.5, "count": 0},
                    {"count": 1}, {"count": 2, "level": 3, "levels": [1, 2]}, {"count": 2, "level": 2.5}, {"count": 1, "mode": "manual", "kind": None, "one": 5},
                    {"name": "Rex"}, {"name": "Rex", "legs": 4}, [{"name": "Rex"}], {"pts": [{"x": 1}]}, {"ns": ["one", 2]}, {"ns": [1, 2]}, {"none": [1]}, {"none": []},
                    {"n": 1}, {"n": 3.0}, {"n": 2, "f": 2, "xs": ["a", 1, 2], "u": "s"}, {"n": 1, "xs": ["a", 3.0]}, {"n": 1, "u": 4.0}, {"n": True},
